@@ -18,6 +18,14 @@
 (*                     COMPONENTS (IsPrefix on sequences); a test on the    *)
 (*                     characters of the spelled path takes /sib for       *)
 (*                     inside - the deviation ContainmentByCharacters.     *)
+(*     /cmap           a decoy directory named like resource directory     *)
+(*                     no. 2 (the words "res" and "cmap" - the BASENAMES   *)
+(*                     of the two resource directories - are segments:     *)
+(*                     "../cmap/x" re-enters the package's cmap directory  *)
+(*                     but leaves /res for /cmap; "../res/x" re-enters     *)
+(*                     /res).  Containment is a relation between the       *)
+(*                     joined path and THE directory it was joined onto -  *)
+(*                     deviation CheckedAgainstOneDirectory otherwise.     *)
 (*     @pkg            resource directory no. 2 (the package's cmap        *)
 (*                     directory), somewhere else: its parent, like the    *)
 (*                     root's parent, is the unknown region "@above" in    *)
@@ -45,11 +53,13 @@ AllDev == {"CMapNameUnconfined",     \* _load_data joins the name unchecked: any
            "ImageNameUnconfined",    \* _create_unique_image_name joins the XObject name unchecked
            "ScreenBeforeStrip",      \* containment only tested for names that LOOK dangerous (absolute / contain ..),
                                      \* judged on the raw name before its NULs are removed
+           "CheckedAgainstOneDirectory",  \* the name is validated once, against the package's cmap directory, and then
+                                     \* joined onto every directory of the search path
            "ContainmentByCharacters"}   \* "inside the directory" decided on the characters of the real path (startswith /
                                      \* commonprefix without a separator) instead of on its components
 ASSUME Dev \subseteq AllDev
 
-Plain == {"H", "dec", "evil", "sub", "zz", "sib"}
+Plain == {"H", "dec", "evil", "sub", "zz", "sib", "res", "cmap"}
 \* dd ".."   d "."   e empty   nul "ev<NUL>il"   long 300 bytes
 \* ndd ".<NUL>."  - a dot-dot split by a NUL      n0 "<NUL>" - nothing but a NUL (in front of a "/" it hides the root)
 \* NULs are removed from a CMap name BEFORE the path is built and resolved, so for the lookup ndd IS ".." and a name
@@ -75,11 +85,13 @@ Pkg == <<"@pkg">>
 Res == <<"res">>
 Out == <<"out">>
 Sib == <<"sib">>
-Dirs == {Root, Res, <<"res", "sub">>, Out, <<"out", "sub">>, <<"dec">>, Sib, Pkg}
+PkgParent == <<"@pkgparent">>       \* the directory that holds the package's cmap directory (nothing else of ours is in it)
+Dirs == {Root, Res, <<"res", "sub">>, Out, <<"out", "sub">>, <<"dec">>, Sib, <<"cmap">>, Pkg}
 \* existing *.pickle.gz files, by directory and base word
 PickleFiles == {<<Pkg, "H">>,                       \* a genuine character map of the package
                 <<<<"dec">>, "H">>,                 \* a file of the same name outside
                 <<Sib, "evil">>,                    \* a decoy in the look-alike sibling of the resource directory
+                <<<<"cmap">>, "evil">>,             \* a decoy in the directory that is merely NAMED like resource directory 2
                 <<Res, "evil">>, <<<<"res", "sub">>, "evil">>,   \* files inside resource directory 1
                 <<<<"dec">>, "evil">>,              \* the decoy outside
                 <<Res, "to-unicode-Adobe-evil">>}   \* a unicode map inside resource directory 1
@@ -89,13 +101,15 @@ InResource(d) == IsPrefix(Res, d) \/ IsPrefix(Pkg, d)
 LooksInside(base, d) == base \in {Res, Out} /\ IsPrefix(Sib, d)
 InOut(d) == IsPrefix(Out, d)
 
-Up(d) == IF d = Above \/ d = Root \/ d = Pkg THEN Above ELSE SubSeq(d, 1, Len(d) - 1)
+Up(d) == IF d = Pkg THEN PkgParent
+         ELSE IF d = Above \/ d = Root \/ d = PkgParent THEN Above ELSE SubSeq(d, 1, Len(d) - 1)
 Fail == <<"@fail">>
 \* one component of kernel path resolution; w is the component as the kernel sees it
 Walk(d, w) == CASE d = Fail -> Fail
                 [] w \in {"d", "e"} -> d
                 [] w = "dd" -> Up(d)
-                [] w \in Plain -> IF d # Above /\ Append(d, w) \in Dirs THEN Append(d, w) ELSE Fail
+                [] w \in Plain -> IF d = PkgParent THEN (IF w = "cmap" THEN Pkg ELSE Fail)      \* "../cmap" from @pkg is @pkg
+                                  ELSE IF d # Above /\ Append(d, w) \in Dirs THEN Append(d, w) ELSE Fail
                 [] OTHER -> Fail          \* over-long component (ENAMETOOLONG), or a word that is not a directory
 RECURSIVE WalkAll(_, _)
 WalkAll(d, s) == IF s = <<>> THEN d ELSE WalkAll(Walk(d, Head(s)), Tail(s))
@@ -156,13 +170,18 @@ ATryDir ==
          hit == p \notin {Fail, Above} /\ FileWord(LastWord(nm)) # "" /\ <<p, FileWord(LastWord(nm))>> \in PickleFiles
          inside == hit /\ IsPrefix(d, p)
          looks == hit /\ ~inside /\ LooksInside(d, p) /\ "ContainmentByCharacters" \in Dev
+         \* the same name joined onto the package's cmap directory stays inside THAT directory
+         pq == ParentDir(Pkg, nm)
+         onedir == hit /\ ~inside /\ "CheckedAgainstOneDirectory" \in Dev
+                   /\ pq \notin {Fail, Above, PkgParent} /\ IsPrefix(Pkg, pq)
          unscreened == hit /\ ~inside /\ "ScreenBeforeStrip" \in Dev
                        /\ ~RawSuspicious(IF site = "regord" THEN Prefixed(name) ELSE name)
-     IN IF hit /\ (inside \/ looks \/ unscreened \/ "CMapNameUnconfined" \in Dev)
+     IN IF hit /\ (inside \/ looks \/ unscreened \/ onedir \/ "CMapNameUnconfined" \in Dev)
         THEN /\ reads' = reads \cup {<<p, FileWord(LastWord(nm))>>}          \* opened, read, unpickled
              /\ blame' = IF inside THEN blame
                          ELSE IF looks THEN blame \cup {"ContainmentByCharacters"}
-                         ELSE IF unscreened THEN blame \cup {"ScreenBeforeStrip"} ELSE blame \cup {"CMapNameUnconfined"}
+                         ELSE IF unscreened THEN blame \cup {"ScreenBeforeStrip"}
+                         ELSE IF onedir THEN blame \cup {"CheckedAgainstOneDirectory"} ELSE blame \cup {"CMapNameUnconfined"}
              /\ phase' = "done" /\ dirs' = <<>>
         ELSE /\ dirs' = Tail(dirs) /\ UNCHANGED <<reads, blame>>
              /\ phase' = IF Tail(dirs) = <<>> THEN "done" ELSE "try"           \* raise CMapNotFound (caught by callers)
@@ -212,7 +231,7 @@ Spec == Init /\ [][Next]_vars
 (* The property.                                                           *)
 (***************************************************************************)
 \* every file opened for reading is a resource inside a resource directory (the input is passed in open)
-ReadsConfined == \A r \in reads : InResource(r[1]) \/ blame \cap {"CMapNameUnconfined", "ContainmentByCharacters", "ScreenBeforeStrip"} # {}
+ReadsConfined == \A r \in reads : InResource(r[1]) \/ blame \cap {"CMapNameUnconfined", "ContainmentByCharacters", "ScreenBeforeStrip", "CheckedAgainstOneDirectory"} # {}
 \* every file created lies inside the output directory
 WritesConfined == \A k \in 1..Len(creates) : InOut(creates[k].dir) \/ "ImageNameUnconfined" \in blame
 \* a path that exists is never opened for writing
